@@ -7,6 +7,7 @@ import (
 
 	"github.com/cloudwego/dynamicgo/conv"
 	"github.com/cloudwego/dynamicgo/conv/j2t"
+	"github.com/cloudwego/dynamicgo/internal/simrt"
 	"github.com/cloudwego/dynamicgo/meta"
 	"github.com/cloudwego/dynamicgo/thrift"
 )
@@ -88,7 +89,9 @@ func runC02(w *W) {
 		for k := 0; k < nenv; k++ {
 			env := drawJ2TEnv(w, len(exp), len(js))
 			w.NextOp(fmt.Sprintf("j2t doc %d env %s", d, env))
+			w.opFacts = map[string]string{"negative": fmt.Sprint(negative != ""), "in_place": simrt.PlaceNames[env.InPlace], "last_byte": lastByteClass(js)}
 			r := runJ2T(w, &cv, desc, js, env, ctx)
+			w.opFacts = nil
 			w.T.NoteBytes(r.Out)
 			facts := r.Facts
 			facts["env"] = env.String()
@@ -131,6 +134,27 @@ func runC02(w *W) {
 		}
 	}
 	w.sample = map[string]interface{}{"idl_bytes": len(sch.IDL), "docs": ndocs, "options": fmt.Sprintf("%+v", opts), "flavour": flavour}
+}
+
+// lastByteClass classifies the final byte of a (possibly truncated) document.
+func lastByteClass(js []byte) string {
+	if len(js) == 0 {
+		return "empty"
+	}
+	c := js[len(js)-1]
+	switch {
+	case c >= '0' && c <= '9', c == '-', c == '.', c == 'e', c == 'E', c == '+':
+		return "number"
+	case c == ' ' || c == '\n' || c == '\t' || c == '\r':
+		return "space"
+	case c == '"':
+		return "quote"
+	case c == '\\':
+		return "backslash"
+	case c == '{' || c == '[' || c == ',' || c == ':' || c == '}' || c == ']':
+		return "punct"
+	}
+	return "other"
 }
 
 func clip(b []byte, n int) string {
